@@ -47,6 +47,7 @@ OPS = [
     ("X.sky_within", ""), ("Y.sky_within", ""), ("L.sky_within", ""),
     ("X.get_demoted", ""), ("Y.get_demoted", ""), ("H.get_demoted", ""), ("X.get_area", ""),
     ("X.saveload", ""),
+    ("X.save", ""), ("Y.save", ""),      # write the file (its content is compared with the model) and KEEP USING the original object
 ]
 CIRC = dict(C1=C1, C2=C2, C3=C3)
 
@@ -168,6 +169,13 @@ class RegionSystem(object):
             exp = len(m) * hp.nside2pixarea(2 ** md)
             if not new.loose[target] and abs(a - exp) > 1e-9 * max(exp, 1e-12):
                 viols.append(dict(kind="query_answer", what="%s.get_area() = %.9g, model %.9g" % (target, a, exp)))
+        elif meth == "save":
+            f = os.path.join(os.environ.get("VERIF_SCRATCH", "/dev/shm"), "regsys_s_%d.mim" % os.getpid())
+            r.save(f)
+            back = Region.load(f)
+            os.remove(f)
+            for v in check_region(back, frozenset(m), target + " (file written by save)", loose=bool(new.loose[target])):
+                viols.append(v)
         elif meth == "saveload":
             f = os.path.join(os.environ.get("VERIF_SCRATCH", "/dev/shm"), "regsys_%d.mim" % os.getpid())
             r.save(f)
